@@ -3,6 +3,8 @@
 package main
 
 import (
+	"strings"
+
 	"github.com/NethermindEth/juno/consensus/types"
 	"verif/harness/lib"
 )
@@ -59,9 +61,13 @@ func (s *genState) flush() {
 		o.F, o.S = "append", s.slack()
 	case x < 32:
 		o.F = "wm"
+	case x < 40:
+		o.F = lib.Pick(s.g, []string{"create", "create", "wmsync", "rotate", "unlink:0"})
 	}
 	s.emit(o)
 	if o.F != "append" {
+		// a "create" failure leaves the batch pending when no writer is open; the guess of the
+		// cleanup counter may then be one flush early, which only matters to the generator
 		s.committed(o.F)
 	}
 }
@@ -74,7 +80,7 @@ func (s *genState) committed(ft string) {
 		if s.maxDel > s.flushed {
 			s.flushed = s.maxDel
 		}
-		if s.since >= cleanupInterval && ft != "wm" {
+		if s.since >= cleanupInterval && ft != "wm" && ft != "wmsync" && ft != "rotate" && !strings.HasPrefix(ft, "unlink:") {
 			s.since = 0
 		}
 	}
@@ -85,7 +91,7 @@ func (s *genState) tail() *tailVariant {
 }
 
 func (s *genState) crash(c string) {
-	o := Op{K: "crash", C: c, I: s.g.Intn(24), M: s.g.Uint64(), T: s.tail()}
+	o := Op{K: "crash", C: c, I: s.g.Intn(24), M: s.g.Uint64(), T: s.tail(), A: s.g.Intn(3) == 0}
 	if c == "flush" || c == "close" {
 		switch x := s.g.Intn(100); {
 		case s.faults && x < 20:
@@ -246,11 +252,16 @@ func genGC(g *lib.RNG, faults bool) []Op {
 			s.crash("flush")
 			cleanups++
 		case next:
-			ft := lib.Pick(g, []string{"", "", "", "wm"})
+			ft := lib.Pick(g, []string{"", "", "", "", "wm", "wmsync", "rotate", "unlink:0", "unlink:1", "unlink:2"})
 			s.emit(Op{K: "flush", F: ft})
 			s.committed(ft)
-			if ft != "wm" {
+			if ft == "" {
 				cleanups++
+			} else if ft != "wm" && ft != "wmsync" {
+				// the cleanup ran in part; most of the time go on to a complete one
+				if g.Intn(3) == 0 {
+					cleanups++
+				}
 			}
 		case faults && g.Intn(25) == 0:
 			s.emit(Op{K: "flush", F: "append", S: s.slack()})
